@@ -645,9 +645,9 @@ theorem keeps_runRetrier (t : TowerId) (locs : List Loc) : ∀ (fuel : Nat) (s :
     · exact k1.trans (ih _)
     · exact k1
 
-theorem keeps_retry (s : St) (t : TowerId) (locs : List Loc) :
-    Keeps s.client (s.retry t locs).client := by
-  unfold St.retry
+theorem keeps_retryRun (s : St) (t : TowerId) (locs : List Loc) :
+    Keeps s.client (s.retryRun t locs).client := by
+  unfold St.retryRun
   split
   · exact Keeps.refl _
   · split
@@ -668,6 +668,13 @@ theorem keeps_retry (s : St) (t : TowerId) (locs : List Loc) :
       · exact (k0.trans k1).trans (keeps_setStatus _ t _ (by intro h; cases h))
       · exact (k0.trans k1).trans (keeps_setStatus _ t _ (by intro h; cases h))
       · exact k0.trans k1
+
+theorem keeps_retry (s : St) (t : TowerId) (locs : List Loc) :
+    Keeps s.client (s.retry t locs).client := by
+  unfold St.retry
+  split
+  · exact keeps_setStatus _ t _ (by intro h; cases h)
+  · exact keeps_retryRun s t locs
 
 end Teos.Plugin
 
@@ -700,9 +707,11 @@ theorem keeps_notifyTower (s : St) (t : TowerId) (l : Loc) :
   have k := keeps_hookTower s t l
   split
   · rename_i s1 heq; rw [heq] at k
-    have := keeps_retry (s1.consumeIf (asked s t l) t) t (s1.pendingOf t)
-    rw [consumeIf_client] at this
-    exact k.trans this
+    split
+    · exact k
+    · have := keeps_retry (s1.consumeIf (asked s t l) t) t (s1.pendingOf t)
+      rw [consumeIf_client] at this
+      exact k.trans this
   · rename_i s1 heq; rw [heq] at k
     rw [consumeIf_client]; exact k
 
@@ -743,10 +752,12 @@ theorem keeps_manualRetry (s : St) (t : TowerId) : Keeps s.client (s.manualRetry
   split
   · exact Keeps.refl _
   · split
-    · exact keeps_retry (s.wake t) t _
+    · exact Keeps.refl _
     · split
-      · exact keeps_retry _ t _
-      · exact Keeps.refl _
+      · exact keeps_retry (s.wake t) t _
+      · split
+        · exact keeps_retry _ t _
+        · exact Keeps.refl _
 
 theorem keeps_restartTower (s : St) (t : TowerId) : Keeps s.client (restartTower s t).client := by
   unfold restartTower
